@@ -216,8 +216,9 @@ PropSeq(e) == e.ev = "bigseq" =>
 PropFlat(e) == e.ev = "bigflat" =>
    LET per == IF e.kind = "L1B0" THEN 4 ELSE 2   hp == IF e.kind = "L1B0" THEN 2 ELSE 1 IN
    /\ e.ok /\ e.same
-   /\ e.msglen = 14 + 2 + Len(ItemHeader(0, e.n)) + e.n * per + 5
-   /\ e.nh = 2 + e.n * hp + 2
+   \* <L[3] <B[0]> <L[2] <A "s"> <L[n] ...>> <L[1] <U1 7>>>
+   /\ e.msglen = 14 + 2 + 2 + 2 + 3 + Len(ItemHeader(0, e.n)) + e.n * per + 5
+   /\ e.nh = 5 + e.n * hp + 2
 \* the size limit reached through a fill: an ASCII variable (whatever bounds it declares) takes a string iff it is inside
 \* the bounds and inside the limit; a list grown by an ellipsis exists iff its element count is inside the limit
 PropRoute(e) == e.ev = "bigroute" =>
